@@ -1,6 +1,6 @@
 """C61: the cache manager enforces http_access and cachemgr_passwd (end to end through the real squid)."""
 import base64, concurrent.futures, json, os, random, re, threading
-from vlib import std, lab, common, hbuild, recipes, coq
+from vlib import std, lab, common, hbuild, recipes, coq, tables
 
 PID = "C61"
 META = {
@@ -423,6 +423,10 @@ def unit_stage(res, tier):
         res.fail("build", "C61: unit harness no longer builds against /repo's working tree: %s" % str(ex)[-1200:],
                  {"no_failing_input_found": True, "broken": "harness build h_mgr", "detail": str(ex)[-3000:]})
         return
+    try:
+        tables.regenerate(["mgr"])        # the runner must carry today's constants (the proof stage reports a failing generator)
+    except Exception:
+        pass
     runner = coq.build_runner("mgr")
     rng = random.Random(common.seed() * 1000003 + 6161)
     cases = std.load_corpus(PID) + gen_unit_cases(rng, 6000 if tier == "quick" else 150000)
